@@ -1498,7 +1498,10 @@ fn checked_upgrade(w: &Weak<Node>, target: WRef) -> Option<Cc<Node>> {
                 };
                 // Inside destructor contexts the crate may answer None for members of the set being processed; an
                 // object reachable from the program that no finalizer touched in this operation is not such a member
-                let live_outside = dctx && m.live() & (1 << t) != 0 && !o.fin_this_op;
+                // (an object that was garbage when the current finalization batch began may sit in a collector list
+                // even if an earlier finalizer of the batch has just resurrected it)
+                let in_batch_live = c.batch_live.get().map_or(true, |b| b & (1 << t) != 0);
+                let live_outside = dctx && m.live() & (1 << t) != 0 && !o.fin_this_op && in_batch_live;
                 let ms = mn.is_none() && cnt > 0 && !o.limbo && (!dctx || live_outside);
                 (mn, ms, Some(t))
             },
